@@ -9,6 +9,9 @@ def nontrivial(req, obs):
     if f[0] == "C18.cross":
         # accepted by at least the HLSL flavours, with at least one resource and one pipeline
         return len(f) > 5 and "dx=ok" in f[5] and f[3] != "" and f[4] != ""
+    if f[0] == "C18.mode":
+        # accepted by the HLSL flavours with at least one declared resource (no-pipeline mode: bindings without stages)
+        return len(f) > 6 and "dx=ok" in f[6] and f[4] != ""
     if f[0] == "C18.annot":
         return "{dx:" in obs
     if f[0] == "C18.simplify":
@@ -28,7 +31,7 @@ def finding_key(req, obs, detail):
     # the harness tags a name difference that is wholly explained by a declared name being a reserved word of only one of
     # the two target languages (decided from the RESERVED_NAMES tables of the source tree); anything else keeps its own key
     m = re.match(r"FAIL:binding-name-reserved-in-one-target:(hlsl|msl|both): ", detail or "")
-    if f[0] == "C18.cross" and m:
+    if f[0] in ("C18.cross", "C18.mode") and m:
         return f"binding-name-reserved-in-one-target:{m.group(1)}"
     return req
 
@@ -53,6 +56,16 @@ def shrink(req):
                 yield "\t".join([f[0], f[1], variant + "~" + ".".join(have + [c]), "", "", ""])
         if variant != "plain" and not variant.startswith("reserved"):
             yield "\t".join([f[0], f[1], "plain" + ("~" + drops if drops else ""), "", "", ""])
+    # C18.mode requests are (seed, variant~drops, mode): the same drops; the harness recomputes the other fields
+    if f[0] == "C18.mode" and len(f) >= 4:
+        variant, _, drops = f[2].partition("~")
+        have = [d for d in drops.split(".") if d]
+        cands = ["h", "s"] + [f"p{i}" for i in range(4)] + [f"r{i}" for i in range(8)]
+        for c in cands:
+            if c not in have:
+                yield "\t".join([f[0], f[1], variant + "~" + ".".join(have + [c]), f[3], "", "", ""])
+        if variant != "plain" and not variant.startswith("reserved") and not variant.startswith("wide"):
+            yield "\t".join([f[0], f[1], "plain" + ("~" + drops if drops else ""), f[3], "", "", ""])
 
 
 def search(ctx):
@@ -60,6 +73,10 @@ def search(ctx):
     define / test / expand one macro under every directive"""
     # the fifth configuration's define list is read through front-end verdicts: fails when MetalBytecode hides them
     out = ["C18.defines\tmtlb"]
+    # the other modes of compile(): no pipeline selected / one named pipeline (seed C18-7)
+    for seed in range(1, 12):
+        for v in ("plain", "state", "typedef-array", "wide", "wide-rich"):
+            out.append(f"C18.mode\t{seed * 7919}\t{v}\tnone\t\t\t")
     variants = ["plain", "state", "pp-guard", "pp-macros", "pp-version", "unbounded", "reserved-matrix", "reserved-cb",
                 "reserved-kernel", "reserved-cb-main", "reserved-double", "entry-texture", "typedef-array", "nonresource", "nonresource-rq",
                 "e-pp-if", "e-parse-mid", "e-type-undef-mid", "e-pipe-entry", "layout-trap", "include", "api-define"]
